@@ -26,6 +26,14 @@ def cases(seed, tier):
                                            first=(1, True, 1) if rng.random() < 0.5 else None))
         cs.append((f'r{i}', f'bw|{rng.choice(GOALS)}|{p}|{rng.choice(DEPTHS[1:])}'))
     dist['random_tables'] = n
+    # the Python-facing wrappers, several questions in a row on one thread (history independence)
+    nseq = 4000 if tier == 'quick' else 40000
+    pool = p22[::5] + [gen.prog_text(gen.random_table(rng, *rng.choice(sizes), 0.08)) for _ in range(nseq)]
+    for i in range(nseq):
+        p = rng.choice(pool)
+        gs = [rng.choice(GOALS) for _ in range(rng.randint(2, 4))]
+        cs.append((f'q{i}', f'bwpyseq|{p}|{rng.choice(DEPTHS[1:])}|{",".join(gs)}'))
+    dist['wrapper_sequences'] = nseq
     named = gen.named_machines()
     for i, p in enumerate(named):
         for g in GOALS:
@@ -80,7 +88,8 @@ def falsified(cs, h, budget):
         ok = (a != '-' and a != '') if g == 'blank' else (
             a.startswith('halt:') if g == 'halt' else a.startswith('spinout'))
         if ok:
-            out.append((cid, line, f'{h[cid]} but the machine reaches the event: {what} at step {n} (spec: {a})'))
+            out.append((cid, line, f'{h[cid]} but the machine reaches the event: {what} at step {n} (spec: {a})'
+                        + (' [answer given inside a sequence of wrapper calls]' if '.' in cid else '')))
     return out, len(ref), len(progs)
 
 
@@ -116,7 +125,16 @@ def run(rep, tier, seed):
     h = core.run_bbh(lines)
     m = core.run_bbm(lines)
     diffs = core.diff_answers(cs, h, m)
-    fals, nref, nprogs = falsified(cs, h, 10000 if tier == 'quick' else 100000)
+    # every answer inside a wrapper sequence is a claim of its own
+    cs_claims = [c for c in cs if not c[1].startswith('bwpyseq')]
+    h_claims = dict(h)
+    for cid, line in cs:
+        if line.startswith('bwpyseq'):
+            _, p, d, gs = line.split('|')
+            for j, (g, a) in enumerate(zip(gs.split(','), h.get(cid, '').split(','))):
+                cs_claims.append((f'{cid}.{j}', f'bw|{g}|{p}|{d}'))
+                h_claims[f'{cid}.{j}'] = a
+    fals, nref, nprogs = falsified(cs_claims, h_claims, 10000 if tier == 'quick' else 100000)
     cl = classify(fals)
     fails = []
     counts = {'F1': 0, 'F2': 0}
@@ -127,18 +145,18 @@ def run(rep, tier, seed):
             counts[k] += 1
             if cid.startswith('k'):
                 _, g, p, d = line.split('|')
-                rep.known_finding(f'{k} witness: cant_{g}("{p}", {d}) = {h[cid]} although the machine does it')
+                rep.known_finding(f'{k} witness: cant_{g}("{p}", {d}) = {h_claims[cid]} although the machine does it')
     for k, n in counts.items():
         if n:
             kf = [f for f in core.known_findings()['open'] if f['id'] == k][0]
             rep.known_finding(f'{k} class ({kf["site"]}): {n} falsified refutations in this run, all attributed by the model counterfactual')
     kinds = {}
-    for cid, _ in cs:
-        a = h.get(cid, '?').split(':')[0]
+    for cid, _ in cs_claims:
+        a = h_claims.get(cid, '?').split(':')[0]
         kinds[a] = kinds.get(a, 0) + 1
     rep.coverage.update({
         'evaluations': len(cs),
-        'distinct_nontrivial': len({l for i, l in cs if h.get(i, '').startswith('refuted:') and h[i] != 'refuted:0'}),
+        'distinct_nontrivial': len({l for i, l in cs_claims if h_claims.get(i, '').startswith('refuted:') and h_claims[i] != 'refuted:0'}),
         'rule': 'programs (2x2 exhaustive, random to 6x2/4x3/2x6, named) x goal x depth; cant_halt/cant_blank/cant_spin_out '
                 'of /repo vs the extracted model incl. step numbers; every refutation of the implementation is tested '
                 'against a real run (native pre-filter, confirmed by the extracted spec); falsified refutations are '
